@@ -414,6 +414,7 @@ def check_c14(prop, tier, replay, selftest):
     _collect_generic(prop, res, tr2, "bdd")
     # the CLI's --export / --import and the no-overwrite rule: the directory machine CliFs, and sessions of the real binary followed with it
     res.add_mc(require_mc(tlc_mc("CliFs", "CliFs.cfg", workers=8, timeout=600)))
+    res.extra["tlaps"] = tlaps_proof("CliFsProof")        # never-overwrite for any names / ADFs / number of invocations
     out3 = cli_trace(binary, tier, "C14")
     tr3 = tlc_trace("Trace_Cli", out3, min_per_shard=10)
     res.add_trace(tr3)
